@@ -72,6 +72,12 @@ def fam_geometry(seed, shard, nshards, n):
         q = Position(_ri(rng, big), _ri(rng, big))
         ar = _rarea(rng, big)
         t, u = Transform(p, o), Transform(q, r)
+        if k % 3 == 0:
+            # poses are mutable (an Agent moves by assigning to its Transform): a pose that has had another
+            # value, and has been used with it, must behave like a fresh one
+            t = Transform(q, r)
+            _used = (-t, t * p, t * ar, hash(t), t * u)
+            t.position, t.orientation = p, o
         yield f'oact {ORIENT_TOK[o]} {enc_pos(p)}', enc_pos(o * p), 'oact'
         yield f'oarea {ORIENT_TOK[o]} {enc_area(ar)}', enc_area(o * ar), 'oarea'
         yield f'padd {enc_pos(p)} {enc_pos(q)}', enc_pos(p + q), 'padd'
